@@ -15,7 +15,9 @@
 //	   original operation on the real channel, vsched.Post()
 //	R4 import "time"  -> lib/verifshim/vtime (same name)         (unless -notime)
 //	R5 for k, v := range <map>  -> iteration in sorted key order   (with -maporder)
-//	R6 vfs.Point("<func>:<callee>#n") before statements calling os/ioutil/syscall (-fspoints)
+//	R6 vfs.Point("<func>:<callee>#n") before every filesystem step, vfs.Writer around the data
+//	   writes of io.Copy(file, ...), vfs.Flock for syscall.Flock            (-fspoints files)
+//	R7 io.Pipe() -> vfs.Pipe()                                               (-fspoints files)
 package main
 
 import (
@@ -25,6 +27,7 @@ import (
 	"fmt"
 	"go/ast"
 	"go/format"
+	"go/parser"
 	"go/printer"
 	"go/token"
 	"go/types"
@@ -196,10 +199,14 @@ type fileCtx struct {
 	fsPoints  bool
 	funcName  string
 	fsCount   map[string]int
+	skipFS    bool                   // inside a method of osWithStats (the primitive wrappers get no points)
+	covered   map[*ast.CallExpr]bool // filesystem calls that got a point / were rewritten
+	exempt    map[*ast.CallExpr]bool // deferred calls (no point: see fsPrepare)
 }
 
 func rewriteFile(f *ast.File, fsPoints bool) bool {
-	c := &fileCtx{file: f, fsPoints: fsPoints, fsCount: map[string]int{}}
+	c := &fileCtx{file: f, fsPoints: fsPoints, fsCount: map[string]int{},
+		covered: map[*ast.CallExpr]bool{}, exempt: map[*ast.CallExpr]bool{}}
 	changed := false
 	// R1 / R4: imports
 	for _, imp := range f.Imports {
@@ -239,10 +246,15 @@ func rewriteFile(f *ast.File, fsPoints bool) bool {
 			continue
 		}
 		c.funcName = fd.Name.Name
+		c.skipFS = false
 		if fd.Recv != nil && len(fd.Recv.List) == 1 {
 			c.funcName = recvName(fd.Recv.List[0].Type) + "." + fd.Name.Name
+			c.skipFS = recvName(fd.Recv.List[0].Type) == "osWithStats"
 		}
 		fd.Body = c.block(fd.Body)
+		if c.fsPoints && !c.skipFS {
+			c.verifyFS(fd.Body)
+		}
 	}
 	if c.needSched {
 		addImport(f, "vsched", shimBase+"vsched")
@@ -578,6 +590,30 @@ func (c *fileCtx) stmt(s ast.Stmt) []ast.Stmt {
 		}
 		return c.generic(s)
 	case *ast.AssignStmt:
+		if optMapOrder {
+			// m[ch] = v with a channel-typed key: register the channel so that sorted iteration over
+			// m (R5) has a deterministic order (order of insertion) instead of address order
+			var notes []ast.Stmt
+			for _, l := range s.Lhs {
+				ix, ok := l.(*ast.IndexExpr)
+				if !ok || !isMap(ix.X) {
+					continue
+				}
+				mt := info.TypeOf(ix.X).Underlying().(*types.Map)
+				if _, isCh := mt.Key().Underlying().(*types.Chan); !isCh {
+					continue
+				}
+				if !simple(ix.Index) {
+					unsup(s, "insertion into a channel-keyed map with a non-simple key expression")
+					continue
+				}
+				c.needSched = true
+				notes = append(notes, callStmt("vsched", "NoteChan", ix.Index))
+			}
+			if len(notes) > 0 {
+				return append(notes, c.generic(s)...)
+			}
+		}
 		if len(s.Rhs) == 1 {
 			if r := recvOf(s.Rhs[0]); r != nil {
 				ch, pre := c.hoistChan(r.X)
@@ -717,6 +753,9 @@ func containsRecvOutsideFuncLit(s ast.Stmt) bool { return containsRecv(s) }
 func (c *fileCtx) ifStmt(s *ast.IfStmt) []ast.Stmt {
 	var pre []ast.Stmt
 	wrap := false
+	// R6: filesystem calls in the initialiser / condition get their point before the if statement
+	// (labels are assigned here, before the body is visited: source order)
+	fsPre := c.fsPrepare(s.Init, s.Cond)
 	if s.Init != nil && (containsRecv(s.Init) || isSend(s.Init)) {
 		init := c.stmt(s.Init)
 		pre = append(pre, init...)
@@ -752,9 +791,9 @@ func (c *fileCtx) ifStmt(s *ast.IfStmt) []ast.Stmt {
 		}
 	}
 	if wrap {
-		return []ast.Stmt{&ast.BlockStmt{List: append(pre, s)}}
+		return []ast.Stmt{&ast.BlockStmt{List: append(append(fsPre, pre...), s)}}
 	}
-	return []ast.Stmt{s}
+	return append(fsPre, s)
 }
 
 func (c *fileCtx) sendStmt(s *ast.SendStmt) []ast.Stmt {
@@ -941,6 +980,18 @@ func parseType(s string) (ast.Expr, error) {
 		}
 		return &ast.StarExpr{X: x}, nil
 	}
+	if strings.HasPrefix(s, "<-chan ") || strings.HasPrefix(s, "chan ") || strings.HasPrefix(s, "chan<- ") {
+		// channel types (maps keyed by channels, e.g. subscriber tables); element type restricted to
+		// what the Go parser accepts as a type expression without package-local context
+		x, err := parser.ParseExpr(s)
+		if err != nil {
+			return nil, fmt.Errorf("unsupported type %q: %v", s, err)
+		}
+		if _, ok := x.(*ast.ChanType); !ok {
+			return nil, fmt.Errorf("unsupported type %q", s)
+		}
+		return x, nil
+	}
 	if strings.ContainsAny(s, " []{}()") {
 		return nil, fmt.Errorf("unsupported type %q", s)
 	}
@@ -1041,68 +1092,191 @@ func intLit(n int) ast.Expr {
 	return &ast.BasicLit{Kind: token.INT, Value: strconv.Itoa(n)}
 }
 
-// fsPoint (R6): precede a statement that calls into os / ioutil / syscall / filepath.Walk /
-// (*os.File) methods by vfs.Point("<func>:<callee>#<n>").
-func (c *fileCtx) fsPoint(s ast.Stmt) []ast.Stmt {
-	if !c.fsPoints {
-		return []ast.Stmt{s}
+// R6 (-fspoints files).  Every call that is a filesystem step — os.*, ioutil.*, syscall.*,
+// methods of the volume's os wrapper (v.os.X, labelled os.X), (*os.File).Close/Readdir/
+// Readdirnames/Write/Sync/Truncate/Stat, filepath.Walk — is preceded by
+// vfs.Point("<func>:<callee>#<n>") (n = ordinal of that callee within the function, in source
+// order; never a line number).  The point is placed before the *statement* that contains the call;
+// for `if init; cond {` before the if statement (an `else if` is wrapped into `else { point; if }`).
+// Special shapes:
+//   io.Copy(dst, src) with dst an *os.File  -> io.Copy(vfs.Writer("<func>:File.Write#n", dst), src):
+//       a point before every data write (and, in kill mode, a kill after a prefix of the chunk)
+//   syscall.Flock(fd, how)                  -> point + vfs.Flock(fd, how) (a blocking lock request
+//       becomes a scheduling-aware wait; the kernel stays the source of truth)
+//   filepath.Walk(root, func...)            -> point before the statement and at the start of the
+//       callback (one per visited entry)
+//   io.Pipe()                               -> vfs.Pipe() (R7: same method set, scheduler aware)
+//   defer f.Close() etc.                    -> no point (a deferred close has no effect another
+//       step could observe; process death closes descriptors anyway)
+// Methods of osWithStats itself get no points (their call sites do).  A filesystem call in any
+// other position (for/switch/range headers, go/send operands ...) is UNSUPPORTED.
+func fsCallee(call *ast.CallExpr) string {
+	se, ok := call.Fun.(*ast.SelectorExpr)
+	if !ok {
+		return ""
 	}
-	var callee string
-	ast.Inspect(s, func(n ast.Node) bool {
-		if callee != "" {
-			return false
+	if id, ok := se.X.(*ast.Ident); ok {
+		if pn, ok := info.Uses[id].(*types.PkgName); ok {
+			if tv, ok := info.Types[call.Fun]; ok && tv.IsType() {
+				return "" // conversion such as os.FileMode(0644)
+			}
+			name := se.Sel.Name
+			switch pn.Imported().Path() {
+			case "os":
+				switch name {
+				case "IsNotExist", "IsExist", "IsPermission", "IsTimeout", "Getpid", "Getenv", "LookupEnv",
+					"Exit", "NewFile", "Getuid", "Getgid", "Hostname", "Expand", "ExpandEnv",
+					"NewSyscallError", "SameFile":
+					return ""
+				}
+				return "os." + name
+			case "io/ioutil":
+				switch name {
+				case "NopCloser", "ReadAll":
+					return ""
+				}
+				return "ioutil." + name
+			case "syscall":
+				return "syscall." + name
+			case "path/filepath":
+				if name == "Walk" {
+					return "filepath.Walk"
+				}
+			case "io":
+				if name == "Copy" && len(call.Args) == 2 && isOSFile(call.Args[0]) {
+					return copyToFile
+				}
+			}
+			return ""
 		}
-		switch n := n.(type) {
-		case *ast.FuncLit:
-			return false
+	}
+	if t := info.TypeOf(se.X); t != nil {
+		ts := t.String()
+		if ts == "*os.File" {
+			switch se.Sel.Name {
+			case "Close", "Readdir", "Readdirnames", "Write", "Sync", "Truncate", "Stat":
+				return "File." + se.Sel.Name
+			}
+		} else if strings.HasSuffix(ts, "osWithStats") {
+			return "os." + se.Sel.Name
+		}
+	}
+	return ""
+}
+
+// copyToFile marks io.Copy(<*os.File>, src); its points are labelled File.Write.
+const copyToFile = "io.Copy>File"
+
+func isOSFile(e ast.Expr) bool {
+	t := info.TypeOf(e)
+	return t != nil && t.String() == "*os.File"
+}
+
+func isIOPipe(call *ast.CallExpr) bool {
+	se, ok := call.Fun.(*ast.SelectorExpr)
+	if !ok || se.Sel.Name != "Pipe" || len(call.Args) != 0 {
+		return false
+	}
+	id, ok := se.X.(*ast.Ident)
+	if !ok {
+		return false
+	}
+	pn, ok := info.Uses[id].(*types.PkgName)
+	return ok && pn.Imported().Path() == "io"
+}
+
+func strLit(s string) ast.Expr {
+	return &ast.BasicLit{Kind: token.STRING, Value: strconv.Quote(s)}
+}
+
+func (c *fileCtx) fsLabel(callee string) string {
+	key := c.funcName + ":" + callee
+	c.fsCount[key]++
+	return fmt.Sprintf("%s#%d", key, c.fsCount[key])
+}
+
+// fsPrepare rewrites the filesystem calls found in the given nodes (function literals excluded:
+// their bodies are visited as statements) and returns the vfs.Point statements that must run
+// immediately before the statement the nodes belong to.
+func (c *fileCtx) fsPrepare(nodes ...ast.Node) []ast.Stmt {
+	if !c.fsPoints || c.skipFS {
+		return nil
+	}
+	var pts []ast.Stmt
+	for _, n := range nodes {
+		if n == nil || reflect.ValueOf(n).IsNil() {
+			continue
+		}
+		ast.Inspect(n, func(m ast.Node) bool {
+			switch m := m.(type) {
+			case *ast.FuncLit:
+				return false
+			case *ast.CallExpr:
+				if c.covered[m] {
+					return true
+				}
+				if isIOPipe(m) {
+					c.covered[m] = true
+					c.needVfs = true
+					m.Fun = sel("vfs", "Pipe")
+					return true
+				}
+				callee := fsCallee(m)
+				if callee == "" {
+					return true
+				}
+				c.covered[m] = true
+				c.needVfs = true
+				if callee == copyToFile {
+					label := c.fsLabel("File.Write")
+					m.Args[0] = &ast.CallExpr{Fun: sel("vfs", "Writer"), Args: []ast.Expr{strLit(label), m.Args[0]}}
+					return true
+				}
+				label := c.fsLabel(callee)
+				switch callee {
+				case "syscall.Flock":
+					pts = append(pts, callStmt("vfs", "Point", strLit(label)))
+					m.Fun = sel("vfs", "Flock")
+				case "filepath.Walk":
+					pts = append(pts, callStmt("vfs", "Point", strLit(label)))
+					for _, a := range m.Args {
+						if fl, ok := a.(*ast.FuncLit); ok {
+							p := callStmt("vfs", "Point", strLit(c.fsLabel("filepath.Walk.fn")))
+							fl.Body.List = append([]ast.Stmt{p}, fl.Body.List...)
+						}
+					}
+				default:
+					pts = append(pts, callStmt("vfs", "Point", strLit(label)))
+				}
+			}
+			return true
+		})
+	}
+	return pts
+}
+
+func (c *fileCtx) fsPoint(s ast.Stmt) []ast.Stmt {
+	return append(c.fsPrepare(s), s)
+}
+
+// verifyFS fails loudly for filesystem calls that ended up without a point.
+func (c *fileCtx) verifyFS(body ast.Node) {
+	ast.Inspect(body, func(m ast.Node) bool {
+		switch m := m.(type) {
+		case *ast.DeferStmt:
+			c.exempt[m.Call] = true
 		case *ast.CallExpr:
-			if se, ok := n.Fun.(*ast.SelectorExpr); ok {
-				if id, ok := se.X.(*ast.Ident); ok {
-					if pn, ok := info.Uses[id].(*types.PkgName); ok {
-						switch pn.Imported().Path() {
-						case "os", "io/ioutil", "syscall":
-							callee = pn.Imported().Name() + "." + se.Sel.Name
-						case "path/filepath":
-							if se.Sel.Name == "Walk" {
-								callee = "filepath.Walk"
-							}
-						}
-						return true
-					}
-				}
-				// method on *os.File or on the volume's os wrapper
-				if t := info.TypeOf(se.X); t != nil {
-					ts := t.String()
-					if ts == "*os.File" {
-						switch se.Sel.Name {
-						case "Close", "Readdir", "Readdirnames", "Write", "Sync", "Truncate", "Stat":
-							callee = "File." + se.Sel.Name
-						}
-					} else if strings.HasSuffix(ts, "osWithStats") || strings.HasSuffix(ts, ".osWithStats") {
-						callee = "os." + se.Sel.Name
-					}
-				}
+			if c.covered[m] || c.exempt[m] {
+				return true
+			}
+			if callee := fsCallee(m); callee != "" {
+				unsup(m, "filesystem call "+callee+" in a position that gets no vfs point")
+			} else if isIOPipe(m) {
+				unsup(m, "io.Pipe() in a position verifgen does not rewrite")
 			}
 		}
 		return true
 	})
-	if callee == "" {
-		return []ast.Stmt{s}
-	}
-	switch callee {
-	case "os.IsNotExist", "os.IsExist", "os.Getpid", "os.Getenv", "os.IsPermission", "syscall.Flock":
-		if callee != "syscall.Flock" {
-			return []ast.Stmt{s}
-		}
-	}
-	c.needVfs = true
-	key := c.funcName + ":" + callee
-	c.fsCount[key]++
-	label := fmt.Sprintf("%s#%d", key, c.fsCount[key])
-	if _, isDefer := s.(*ast.DeferStmt); isDefer {
-		return []ast.Stmt{s}
-	}
-	return []ast.Stmt{callStmt("vfs", "Point", &ast.BasicLit{Kind: token.STRING, Value: strconv.Quote(label)}), s}
 }
 
 var _ = json.Marshal
